@@ -70,7 +70,14 @@ Fixpoint count_returned (dir : N) (es : list (list N)) : N :=
 
 Definition trace_ok (cap : nat) (dir : N) (es : list (list N)) : bool :=
   match events_of dir es with
-  | Some evs => match orun cap oinit evs with Some _ => true | None => false end
+  | Some evs =>
+      match orun cap oinit evs with
+      | Some _ =>
+          (* when the scenario ended (before the worker was told to stop) nothing parsed was waiting
+             although the channel had room *)
+          match orun cap oinit (before_exit evs) with Some o => settled cap o | None => false end
+      | None => false
+      end
   | None => false
   end.
 
